@@ -81,8 +81,17 @@ def _run_shard(work, binp, check, idx, scs, module="ResponderTrace.tla"):
 
 
 def _san_summary(err):
+    head = ""
     for line in err.split("\n"):
-        if "runtime error" in line or "ERROR: AddressSanitizer" in line or "SUMMARY" in line:
+        if not head and ("runtime error" in line or "ERROR: AddressSanitizer" in line or "ERROR: ThreadSanitizer" in line):
+            head = re.sub(r"0x[0-9a-f]+", "0x..", re.sub(r"==\d+==", "", line.strip()))[:200]
+        m = re.search(r"#\d+ 0x[0-9a-f]+ in (\S+) (/repo/\S+)", line)
+        if head and m:
+            return head + " in " + m.group(1) + " " + m.group(2)
+    if head:
+        return head
+    for line in err.split("\n"):
+        if "SUMMARY" in line:
             return line.strip()[:300]
     return err.strip().split("\n")[-1][:300] if err.strip() else ""
 
@@ -188,6 +197,15 @@ def responder_check(prop, tier, seed, t0, check, scenarios, mc=(), level="model_
 
 
 # =========================================================================== properties
+def c01(prop, tier, seed, t0):
+    return responder_check(prop, tier, seed, t0, {"C02"}, campaigns.campaign_c01(seed, tier), level="exploration",
+                           assumptions=["memory safety and UB-freedom are observed by ASan/UBSan (-fno-sanitize-recover) on the behaviours the "
+                                        "generators produce, not proved; the bounds logic is model-checked (ResponderMC ReadExtent)",
+                                        "every frame goes through all three receive entry points: derive_session_event, parseFrame, "
+                                        "lltd_esp32_handle_frame (exact-length heap copy), followed by automata_tick",
+                                        "the recorded trace must be complete and every transmitted frame well-formed and within the solicited bounds (Check=C02)"])
+
+
 def c02(prop, tier, seed, t0):
     return responder_check(prop, tier, seed, t0, {"C02", "EQ"}, campaigns.campaign_c02(seed, tier),
                            assumptions=["determinism clause: twin interfaces with fresh-allocation fill 0xA5 / 0x5A must transmit identical bytes"])
@@ -225,11 +243,39 @@ def c10(prop, tier, seed, t0):
     return responder_check(prop, tier, seed, t0, {"C10"}, campaigns.campaign_c10(seed, tier))
 
 
+def c18(prop, tier, seed, t0):
+    # pass 1: fault-free run of the corpus to count the allocations / transmits of every target
+    work = vlib.Work(prop + "m")
+    binp = vlib.build_responder("asan")
+    counts = {}
+    for sc in campaigns.campaign_c18_measure():
+        text, spans = vlib.assemble([sc])
+        sp, tp = work.path("m.script"), work.path("m.ndjson")
+        with open(sp, "w") as f:
+            f.write(text)
+        rc, err = vlib.run_harness(binp, sp, tp)
+        if rc != 0:
+            raise Infra("fault-free corpus run failed for %s: %s" % (sc.name, err[-500:]))
+        want = sc.meta["target_line"] + 1     # + MARK line
+        with open(tp) as f:
+            for line in f:
+                ev = json.loads(line)
+                if ev.get("e") == "req" and ev.get("ln") == want and ev.get("ifc") == 1:
+                    counts[sc.name] = (ev["na"], ev["ns"])
+    work.cleanup()
+    scs = campaigns.campaign_c18(seed, tier, counts)
+    return responder_check(prop, tier, seed, t0, {"C18", "C02", "C19", "EQ"}, scs, level="fault_enumeration",
+                           assumptions=["fault plans: k-th allocation (every k up to the fault-free count + 1), every single transmit, all transmits, "
+                                        "getter subsets; the constructors are covered by the automata driver (see C18 evidence 'constructors')",
+                                        "an MTU getter failure is only injected on interfaces whose MTU is the documented fallback 1500"],
+                           extra_cov={"fault_free_counts": {k: list(v) for k, v in sorted(counts.items())}})
+
+
 def c19(prop, tier, seed, t0):
     return responder_check(prop, tier, seed, t0, {"C19"}, campaigns.campaign_c19(seed, tier))
 
 
-REGISTRY = {"C02": c02, "C03": c03, "C04": c04, "C05": c05, "C06": c06, "C07": c07, "C08": c08, "C09": c09, "C10": c10, "C19": c19}
+REGISTRY = {"C01": c01, "C02": c02, "C03": c03, "C04": c04, "C05": c05, "C06": c06, "C07": c07, "C08": c08, "C09": c09, "C10": c10, "C18": c18, "C19": c19}
 
 
 # =========================================================================== replay
